@@ -45,7 +45,7 @@ KERNELS = {
 NAT_KERNELS = {"_check_regular_chunks", "to_chunksize"}
 
 GEN_HEADER = r"""
-From CubedV Require Import Model.Util Model.Memory Model.Rechunk Model.Regular.
+From CubedV Require Import Model.Util Model.Memory Model.Rechunk Model.Regular Model.Dag Model.FuseGuard Proofs.FuseGuardProofs.
 From Gen Require Import Gen.
 Local Open Scope Z_scope.
 
@@ -134,6 +134,356 @@ Proof. intros. reflexivity. Qed.
 DEPS = {"to_chunksize": ["_check_regular_chunks"], "calculate_single_stage_io_ops": ["_count_intermediate_chunks"],
         "peak_projected_mem": ["MemoryModeller.allocate", "MemoryModeller.free"]}
 
+
+# ---- "object" kernels: functions over PrimitiveOperation objects, rendered over Model.FuseGuard.pview ------------------
+# attribute chains of a primitive operation -> field of the view record
+PVIEW_FIELDS = {"fusable_with_predecessors": ("v_fpred", "bool"), "fusable_with_successors": ("v_fsucc", "bool"),
+                "num_tasks": ("v_ntasks", "Z"), "projected_mem": ("v_proj", "Z"), "allowed_mem": ("v_allowed", "Z"),
+                "reserved_mem": ("v_reserved", "Z"), "pipeline.config.num_input_blocks": ("v_nib", "list Z")}
+# function -> (file, positional params, keyword-only params, result); a param of type None may only be used for logging
+OBJ_KERNELS = {
+    "is_fuse_candidate": ("cubed/primitive/blockwise.py", [("primitive_op", "pview")], [], "bool"),
+    "can_fuse_primitive_ops": ("cubed/primitive/blockwise.py", [("primitive_op1", "pview"), ("primitive_op2", "pview")], [], "bool"),
+    "can_fuse_multiple_primitive_ops": ("cubed/primitive/blockwise.py",
+                                        [("name", None), ("primitive_op", "pview"), ("predecessor_primitive_ops", "list (option pview)")],
+                                        [("max_total_num_input_blocks", "option Z")], "bool"),
+    # slice: the budget fields fuse_multiple passes to PrimitiveOperation(...)
+    "fuse_multiple.fields": ("cubed/primitive/blockwise.py", [("primitive_op", "pview")], [], "Z * Z * Z * Z"),
+}
+FUSE_FIELDS = ["projected_mem", "allowed_mem", "reserved_mem", "num_tasks"]
+
+EQUIV.update({
+    "is_fuse_candidate": r"""
+Theorem gen_is_fuse_candidate_equiv : forall p, gen_is_fuse_candidate p = is_fuse_candidateZ p.
+Proof. intros. reflexivity. Qed.
+""",
+    "can_fuse_primitive_ops": r"""
+Theorem gen_can_fuse_primitive_ops_equiv : forall p1 p2, gen_can_fuse_primitive_ops p1 p2 = can_fuse_primitive_opsZ p1 p2.
+Proof. intros. reflexivity. Qed.
+""",
+    "can_fuse_multiple_primitive_ops": r"""
+Theorem gen_can_fuse_multiple_primitive_ops_equiv : forall p pps m,
+  gen_can_fuse_multiple_primitive_ops p pps m = can_fuse_multipleZ p pps m.
+Proof.
+  intros. unfold gen_can_fuse_multiple_primitive_ops, can_fuse_multipleZ.
+  rewrite gen_peak_projected_mem_equiv, pairs_somes. reflexivity.
+Qed.
+(* hence: what the source accepts for fusion is what Model.Dag.can_fuse_multiple accepts, for every operation *)
+Corollary source_guard_is_dag_guard : forall B (p : primop B) pps m,
+  gen_can_fuse_multiple_primitive_ops (zview p) (map (option_map zview) pps) (option_map Z.of_nat m) = can_fuse_multiple B p pps m.
+Proof. intros. rewrite gen_can_fuse_multiple_primitive_ops_equiv. apply can_fuse_multipleZ_view. Qed.
+""",
+    "fuse_multiple.fields": r"""
+Theorem gen_fuse_multiple_fields_equiv : forall p pps, gen_fuse_multiple_fields p pps = fuse_multiple_fieldsZ p pps.
+Proof.
+  intros. unfold gen_fuse_multiple_fields, fuse_multiple_fieldsZ.
+  rewrite gen_peak_projected_mem_equiv, pairs_keep_somes. reflexivity.
+Qed.
+Corollary source_fused_fields_are_dag_fields : forall B (p : primop B) pps,
+  gen_fuse_multiple_fields (zview p) (map (option_map zview) pps)
+  = (proj B (fuse_multiple B p pps), allowed B (fuse_multiple B p pps), reserved B (fuse_multiple B p pps),
+     Z.of_nat (ntasks B (fuse_multiple B p pps))).
+Proof. intros. rewrite gen_fuse_multiple_fields_equiv. apply fuse_multiple_fieldsZ_view. Qed.
+""",
+})
+DEPS.update({"can_fuse_primitive_ops": ["is_fuse_candidate"],
+             "can_fuse_multiple_primitive_ops": ["MemoryModeller.allocate", "MemoryModeller.free", "peak_projected_mem", "is_fuse_candidate"],
+             "fuse_multiple.fields": ["MemoryModeller.allocate", "MemoryModeller.free", "peak_projected_mem"]})
+
+
+def _chain(e):
+    """a.b.c -> ('a', 'b.c') for an attribute chain rooted at a name"""
+    parts = []
+    while isinstance(e, ast.Attribute):
+        parts.append(e.attr)
+        e = e.value
+    if isinstance(e, ast.Name) and parts:
+        return e.id, ".".join(reversed(parts))
+    return None
+
+
+def _is_none_test(t, positive=True):
+    """`x is None` (positive) / `x is not None` -> x"""
+    if (isinstance(t, ast.Compare) and len(t.ops) == 1 and isinstance(t.left, ast.Name) and isinstance(t.comparators[0], ast.Constant)
+            and t.comparators[0].value is None and isinstance(t.ops[0], ast.Is if positive else ast.IsNot)):
+        return t.left.id
+    return None
+
+
+def _is_logging(s):
+    return (isinstance(s, ast.Expr) and isinstance(s.value, ast.Call) and isinstance(s.value.func, ast.Attribute)
+            and isinstance(s.value.func.value, ast.Name) and s.value.func.value.id == "logger"
+            and s.value.func.attr in ("debug", "info", "warning"))
+
+
+def _only_logging(body):
+    return all(_is_logging(b) for b in body)
+
+
+def _always_returns(body):
+    if not body:
+        return False
+    last = body[-1]
+    if isinstance(last, ast.Return):
+        return True
+    if isinstance(last, ast.If) and last.orelse:
+        return _always_returns(last.body) and _always_returns(last.orelse)
+    return False
+
+
+class TrObj:
+    """functions over primitive operations (records of type pview), optional ones (`x is None`) and lists of them"""
+
+    def __init__(self, env):
+        self.env = dict(env)
+
+    def typ(self, e):
+        if isinstance(e, ast.Name) and self.env.get(e.id):
+            return self.env[e.id]
+        c = _chain(e)
+        if c and self.env.get(c[0]) == "pview" and c[1] in PVIEW_FIELDS:
+            return PVIEW_FIELDS[c[1]][1]
+        raise TranslationError(f"no type for {ast.dump(e)[:60]}")
+
+    def expr(self, e):
+        if isinstance(e, ast.Name):
+            if not self.env.get(e.id):
+                raise TranslationError(f"name {e.id} is not a translatable value here")
+            return e.id
+        if isinstance(e, ast.Constant) and isinstance(e.value, bool):
+            return "true" if e.value else "false"
+        if isinstance(e, ast.Constant) and isinstance(e.value, int):
+            return f"({e.value})"
+        c = _chain(e)
+        if c:
+            if self.env.get(c[0]) == "pview" and c[1] in PVIEW_FIELDS:
+                return f"({PVIEW_FIELDS[c[1]][0]} {c[0]})"
+            raise TranslationError(f"attribute {c[0]}.{c[1]}")
+        if isinstance(e, ast.Compare) and len(e.ops) == 1:
+            lc = _chain(e.left)
+            r0 = e.comparators[0]
+            if (lc and lc[1] == "pipeline.function" and self.env.get(lc[0]) == "pview" and isinstance(e.ops[0], ast.Eq)
+                    and isinstance(r0, ast.Name) and r0.id == "apply_blockwise"):
+                return f"(v_bw {lc[0]})"
+            l, r = self.expr(e.left), self.expr(r0)
+            op = e.ops[0]
+            if isinstance(op, ast.LtE): return f"({l} <=? {r})"
+            if isinstance(op, ast.Lt): return f"({l} <? {r})"
+            if isinstance(op, ast.GtE): return f"({r} <=? {l})"
+            if isinstance(op, ast.Gt): return f"({r} <? {l})"
+            if isinstance(op, ast.Eq): return f"({l} =? {r})"
+            if isinstance(op, ast.NotEq): return f"(negb ({l} =? {r}))"
+            raise TranslationError(f"comparison {type(op).__name__}")
+        if isinstance(e, ast.BoolOp):
+            j = " || " if isinstance(e.op, ast.Or) else " && "
+            return "(" + j.join(self.expr(v) for v in e.values) + ")"
+        if isinstance(e, ast.UnaryOp) and isinstance(e.op, ast.Not):
+            return f"(negb {self.expr(e.operand)})"
+        if isinstance(e, ast.BinOp) and type(e.op) in (ast.Add, ast.Sub, ast.Mult):
+            o = {ast.Add: "+", ast.Sub: "-", ast.Mult: "*"}[type(e.op)]
+            return f"({self.expr(e.left)} {o} {self.expr(e.right)})"
+        if isinstance(e, ast.Call) and isinstance(e.func, ast.Name) and not e.keywords:
+            fn = e.func.id
+            if fn in ("all", "any") and len(e.args) == 1 and isinstance(e.args[0], ast.GeneratorExp):
+                return self.quant(fn, e.args[0])
+            if fn == "max" and len(e.args) == 2:
+                return f"(Z.max {self.expr(e.args[0])} {self.expr(e.args[1])})"
+            if fn in OBJ_KERNELS and "." not in fn and OBJ_KERNELS[fn][3] == "bool" and not OBJ_KERNELS[fn][2]:
+                if [self.typ(a) for a in e.args] != [t for _, t in OBJ_KERNELS[fn][1]]:
+                    raise TranslationError(f"call of {fn}: argument types")
+                return f"(gen_{fn} {' '.join(self.expr(a) for a in e.args)})"
+            if fn == "peak_projected_mem" and len(e.args) == 1:
+                return f"(gen_peak_projected_mem (pviews_to_pairs {self.oplist(e.args[0])}))"
+            if fn == "chunk_memory" and len(e.args) == 1:
+                c = _chain(e.args[0])
+                if c and c[1] == "target_array" and self.env.get(c[0]) == "pview":
+                    return f"(v_chunkmem {c[0]})"
+        raise TranslationError(f"expression {ast.dump(e)[:80]}")
+
+    def oplist(self, a):
+        """an iterable of optional primitive operations: a name, or (p for p in xs if p is not None)"""
+        if isinstance(a, ast.Name) and self.env.get(a.id) == "list (option pview)":
+            return a.id
+        if (isinstance(a, ast.GeneratorExp) and len(a.generators) == 1 and isinstance(a.generators[0].target, ast.Name)
+                and isinstance(a.elt, ast.Name) and a.elt.id == a.generators[0].target.id and len(a.generators[0].ifs) == 1
+                and _is_none_test(a.generators[0].ifs[0], positive=False) == a.elt.id
+                and isinstance(a.generators[0].iter, ast.Name) and self.env.get(a.generators[0].iter.id) == "list (option pview)"):
+            return f"(keep_somes {a.generators[0].iter.id})"
+        raise TranslationError("argument of peak_projected_mem")
+
+    def quant(self, fn, g):
+        if len(g.generators) != 1 or not isinstance(g.generators[0].target, ast.Name):
+            raise TranslationError("generator shape")
+        gen = g.generators[0]
+        x = gen.target.id
+        ty = self.typ(gen.iter)
+        q, unit = ("forallb", "true") if fn == "all" else ("existsb", "false")
+        saved = self.env.get(x)
+        try:
+            if ty == "list Z" and not gen.ifs:
+                self.env[x] = "Z"
+                return f"({q} (fun {x} => {self.expr(g.elt)}) {self.expr(gen.iter)})"
+            if ty == "list (option pview)":
+                elt = g.elt
+                if len(gen.ifs) == 1 and _is_none_test(gen.ifs[0], positive=False) == x:
+                    pass                                    # all/any(E for p in xs if p is not None)
+                elif (not gen.ifs and fn == "all" and isinstance(elt, ast.BoolOp) and isinstance(elt.op, ast.Or) and len(elt.values) == 2
+                      and _is_none_test(elt.values[0]) == x):
+                    elt = elt.values[1]                     # all(p is None or E for p in xs)
+                elif (not gen.ifs and fn == "any" and isinstance(elt, ast.BoolOp) and isinstance(elt.op, ast.And) and len(elt.values) == 2
+                      and _is_none_test(elt.values[0], positive=False) == x):
+                    elt = elt.values[1]                     # any(p is not None and E for p in xs)
+                else:
+                    raise TranslationError("quantifier over optional operations")
+                self.env[x] = "pview"
+                return f"({q} (fun {x}_opt => match {x}_opt with None => {unit} | Some {x} => {self.expr(elt)} end) {self.expr(gen.iter)})"
+            raise TranslationError(f"quantifier over {ty}")
+        finally:
+            self.env[x] = saved
+
+    # ---- statements -----------------------------------------------------------------------------------------------
+    def loop_body(self, body, acc, first=True):
+        if not body:
+            return acc
+        s, rest = body[0], body[1:]
+        if _is_logging(s):
+            return self.loop_body(rest, acc, first)
+        x = None
+        if isinstance(s, ast.If) and not s.orelse and len(s.body) == 1 and isinstance(s.body[0], ast.Continue):
+            x = _is_none_test(s.test)
+        if x is not None and self.env.get(x) == "option pview":
+            self.env[x] = "pview"
+            try:
+                return f"match {x}_opt with None => {acc} | Some {x} => {self.loop_body(rest, acc, False)} end"
+            finally:
+                self.env[x] = "option pview"
+        if isinstance(s, ast.AugAssign) and isinstance(s.op, ast.Add) and isinstance(s.target, ast.Name) and s.target.id == acc:
+            return f"let {acc} := ({acc} + {self.expr(s.value)}) in {self.loop_body(rest, acc, False)}"
+        if isinstance(s, ast.For) and not s.orelse:
+            return f"let {acc} := {self.loop(s, acc)} in {self.loop_body(rest, acc, False)}"
+        raise TranslationError(f"loop body statement at line {getattr(s, 'lineno', '?')}")
+
+    def loop(self, s, acc):
+        """for x in xs / for a, b in zip(xs, ys[, strict=True]): single accumulator `acc`; value = the accumulator after the loop"""
+        it = s.iter
+        if isinstance(s.target, ast.Name):
+            x = s.target.id
+            ty = self.typ(it)
+            if ty != "list Z":
+                raise TranslationError("loop over " + ty)
+            saved = self.env.get(x)
+            self.env[x] = "Z"
+            try:
+                return f"fold_left (fun {acc} {x} => {self.loop_body(s.body, acc)}) {self.expr(it)} {acc}"
+            finally:
+                self.env[x] = saved
+        if (isinstance(s.target, ast.Tuple) and len(s.target.elts) == 2 and all(isinstance(t, ast.Name) for t in s.target.elts)
+                and isinstance(it, ast.Call) and isinstance(it.func, ast.Name) and it.func.id == "zip" and len(it.args) == 2
+                and all(k.arg == "strict" for k in it.keywords)):
+            a, b = (t.id for t in s.target.elts)
+            ta, tb = self.typ(it.args[0]), self.typ(it.args[1])
+            el = {"list Z": "Z", "list (option pview)": "option pview"}
+            if ta not in el or tb not in el:
+                raise TranslationError("zip element types")
+            saved = (self.env.get(a), self.env.get(b))
+            self.env[a], self.env[b] = el[ta], el[tb]
+            na = a + "_opt" if el[ta].startswith("option") else a
+            nb = b + "_opt" if el[tb].startswith("option") else b
+            try:
+                return (f"fold_left (fun {acc} t_ => let {na} := fst t_ in let {nb} := snd t_ in {self.loop_body(s.body, acc)}) "
+                        f"(combine {self.expr(it.args[0])} {self.expr(it.args[1])}) {acc}")
+            finally:
+                self.env[a], self.env[b] = saved
+        raise TranslationError("loop shape")
+
+    def acc_of(self, s):
+        accs = {n.target.id for n in ast.walk(s) if isinstance(n, ast.AugAssign) and isinstance(n.target, ast.Name)}
+        if len(accs) != 1:
+            raise TranslationError("loop must update exactly one accumulator")
+        return accs.pop()
+
+    def block(self, body):
+        """the value returned by executing `body` (every path must end in return)"""
+        if not body:
+            raise TranslationError("a path falls off the end of the function")
+        s, rest = body[0], body[1:]
+        if isinstance(s, ast.Expr) and isinstance(s.value, ast.Constant) and isinstance(s.value.value, str):
+            return self.block(rest)
+        if _is_logging(s) or (isinstance(s, ast.If) and _only_logging(s.body) and _only_logging(s.orelse)):
+            return self.block(rest)
+        if isinstance(s, ast.Return):
+            return self.expr(s.value)
+        if isinstance(s, ast.Assign) and len(s.targets) == 1 and isinstance(s.targets[0], ast.Name):
+            v = s.targets[0].id
+            val = self.expr(s.value)
+            ty = "bool" if isinstance(s.value, (ast.Compare, ast.BoolOp)) or (isinstance(s.value, ast.Call) and getattr(s.value.func, "id", "") in ("all", "any")) else None
+            if ty is None:
+                try:
+                    ty = self.typ(s.value)
+                except TranslationError:
+                    ty = "Z"
+            self.env[v] = ty
+            return f"let {v} := {val} in\n  {self.block(rest)}"
+        if isinstance(s, ast.For) and not s.orelse:
+            acc = self.acc_of(s)
+            if self.env.get(acc) != "Z":
+                raise TranslationError("accumulator must be an initialised integer")
+            return f"let {acc} := {self.loop(s, acc)} in\n  {self.block(rest)}"
+        if isinstance(s, ast.If):
+            then_b = s.body if _always_returns(s.body) else s.body + rest
+            else_b = (s.orelse if _always_returns(s.orelse) else s.orelse + rest) if s.orelse else rest
+            x = _is_none_test(s.test)
+            if x is not None and (self.env.get(x) or "").startswith("option "):
+                inner = self.env[x][len("option "):]
+                a = self.block(then_b)
+                self.env[x] = inner
+                try:
+                    b = self.block(else_b)
+                finally:
+                    self.env[x] = "option " + inner
+                return f"match {x} with None => {a} | Some {x} => {b} end"
+            return f"if {self.expr(s.test)} then {self.block(then_b)} else {self.block(else_b)}"
+        raise TranslationError(f"statement {type(s).__name__} at line {getattr(s, 'lineno', '?')}")
+
+
+def translate_obj(name, repo):
+    path, params, kwonly, result = OBJ_KERNELS[name]
+    tree = ast.parse((Path(repo) / path).read_text())
+    fname = name.split(".")[0]
+    fn = next((n for n in tree.body if isinstance(n, ast.FunctionDef) and n.name == fname), None)
+    if fn is None:
+        raise TranslationError(f"{fname} not found in {path}")
+    if name == "fuse_multiple.fields":
+        if [a.arg for a in fn.args.args] != ["primitive_op"] or fn.args.vararg is None or fn.args.vararg.arg != "predecessor_primitive_ops" or fn.args.kwonlyargs:
+            raise TranslationError("fuse_multiple: signature changed")
+        tr = TrObj({"primitive_op": "pview", "predecessor_primitive_ops": "list (option pview)"})
+        rets = [n for n in ast.walk(fn) if isinstance(n, ast.Return)]
+        if len(rets) != 1 or not (isinstance(rets[0].value, ast.Call) and isinstance(rets[0].value.func, ast.Name) and rets[0].value.func.id == "PrimitiveOperation"):
+            raise TranslationError("fuse_multiple must end in a single return PrimitiveOperation(...)")
+        kws = {k.arg: k.value for k in rets[0].value.keywords}
+        out = []
+        for f in FUSE_FIELDS:
+            if f not in kws:
+                raise TranslationError(f"fuse_multiple: PrimitiveOperation(...) without {f}=")
+            v = kws[f]
+            if isinstance(v, ast.Name) and v.id not in tr.env:
+                stores = [n for n in ast.walk(fn) if isinstance(n, (ast.Assign, ast.AugAssign, ast.AnnAssign, ast.For, ast.NamedExpr, ast.With))
+                          and any(isinstance(t, ast.Name) and t.id == v.id and isinstance(t.ctx, ast.Store) for t in ast.walk(n))]
+                top = [n for n in fn.body if isinstance(n, ast.Assign) and len(n.targets) == 1 and isinstance(n.targets[0], ast.Name) and n.targets[0].id == v.id]
+                if len(stores) != 1 or len(top) != 1:
+                    raise TranslationError(f"fuse_multiple: {v.id} must be assigned exactly once, at the top level")
+                v = top[0].value
+            out.append(tr.expr(v))
+        return ("Definition gen_fuse_multiple_fields (primitive_op : pview) (predecessor_primitive_ops : list (option pview)) : Z * Z * Z * Z :=\n"
+                f"  ({', '.join(out)})%Z.\n")
+    argnames = [a.arg for a in fn.args.args]
+    kwnames = [a.arg for a in fn.args.kwonlyargs]
+    if argnames != [p for p, _ in params] or kwnames != [p for p, _ in kwonly] or fn.args.vararg or fn.args.kwarg:
+        raise TranslationError(f"{name}: parameters {argnames} / {kwnames} differ from the declared ones")
+    allp = [(p, t) for p, t in params + kwonly if t]
+    body = TrObj(allp).block(fn.body)
+    binders = " ".join(f"({p} : {t})" for p, t in allp)
+    return f"Definition gen_{name} {binders} : {result} :=\n  ({body})%Z.\n"
 
 
 class Tr:
@@ -382,7 +732,7 @@ def translate(name, repo=None):
 def check(names=None, repo=None, tag="all"):
     """Translate the named kernels (+ the kernels they call) from `repo`, compile, check their equivalences.
     Returns (ok, message, generated text)."""
-    names = list(names or KERNELS)
+    names = list(names or list(KERNELS) + list(OBJ_KERNELS))
     order = []
     for n in names:
         for d in DEPS.get(n, []) + [n]:
@@ -392,13 +742,13 @@ def check(names=None, repo=None, tag="all"):
     gen = VERIF / "build" / "gen" / (tag + ("" if repo == "/repo" else "_" + "".join(ch if ch.isalnum() else "_" for ch in repo)))
     gen.mkdir(parents=True, exist_ok=True)
     try:
-        defs = [translate(n, repo) for n in order]
+        defs = [translate_obj(n, repo) if n in OBJ_KERNELS else translate(n, repo) for n in order]
     except TranslationError as e:
         return False, f"translation failed (source left the translatable subset or changed signature): {e}", ""
     except Exception as e:
         return False, f"translation failed: {type(e).__name__}: {e}", ""
     text = ("(* GENERATED on every run from /repo by harness/translate.py - do not edit *)\n"
-            "From CubedV Require Import Model.Util Model.Memory Model.Rechunk Model.Regular.\nLocal Open Scope Z_scope.\n\n" + "\n".join(defs))
+            "From CubedV Require Import Model.Util Model.Memory Model.Rechunk Model.Regular Model.Dag Model.FuseGuard.\nLocal Open Scope Z_scope.\n\n" + "\n".join(defs))
     (gen / "Gen.v").write_text(text)
     (gen / "GenEquiv.v").write_text(GEN_HEADER + "".join(EQUIV[n] for n in order))
     for f in ("Gen.v", "GenEquiv.v"):
